@@ -1,6 +1,6 @@
-(* Render passes whose callbacks change cells (Model/TextPass.v) show, at every
+(* Render passes whose callbacks change cells (Model/TextLive.v) show, at every
    render of a history, exactly the table of Spec/TextPassSpec.v. *)
-From Tab Require Import Model.Text Model.TextPass Spec.TextLayout Spec.TextPassSpec
+From Tab Require Import Model.Text Model.TextLive Spec.TextLayout Spec.TextPassSpec
      Proofs.TextTop Proofs.TextGeom Proofs.TextProps Proofs.TextZero.
 
 Local Open Scope nat_scope.
